@@ -733,7 +733,17 @@ class Source:
         return out
 
     def segment(self, node):
-        return ast.get_source_segment(self.text, node) or ""
+        """Source text of a function for the quote in the generated file, without its docstring
+        (docstrings contain words like 'Parameters' that only clutter greps of the Coq sources)."""
+        seg = ast.get_source_segment(self.text, node) or ""
+        body = getattr(node, "body", None)
+        if body and isinstance(body[0], ast.Expr) and isinstance(getattr(body[0], "value", None), ast.Constant) \
+                and isinstance(body[0].value.value, str):
+            lines = self.text.split("\n")
+            a, b = body[0].lineno, body[0].end_lineno
+            keep = lines[node.lineno - 1:a - 1] + lines[b:node.end_lineno]
+            seg = "\n".join(keep)
+        return seg
 
 
 # --------------------------------------------------------------------------------------------------
